@@ -8,6 +8,8 @@ R29.1 spawn_closure_effects: for every closure handed to std::thread::spawn in p
 R29.2 who_may_publish: PublishDiagnostics notifications are built only in the notify_* helpers; those are called
       only from the document handlers and from the spawn closure (inventory, floor-checked).
 R29.4 full-text sync: the change applied from a didChange is contentChanges.last() (or all entries in order).
+R29.5 the per-document parse results always belong to the current text (wholesale reset in clear(); reset before / behind the
+      parser call on every path of Server::analyze).
 """
 import re
 
@@ -147,6 +149,7 @@ def check(ctx):
                           "%s publishes a version that is not the notification's version field" % short(c.path),
                           where(b, c.line))
     r29_4(ctx, facts)
+    parsed_data_is_current(ctx, facts)
 
 
 def r29_4(ctx, facts):
@@ -186,3 +189,65 @@ def r29_4(ctx, facts):
                   "the last entry is the document's state, the diagnostics published for this version describe a text the "
                   "client has replaced" % (".".join(reversed(chain)) + "()" if chain else "an entry that is not derived from last()"),
                   where(b, c.line))
+
+
+def parsed_data_is_current(ctx, facts, rule="R29.5"):
+    """R29.5 / R30.6 (added after seeds C29-c and C30-c) the parse results kept per document always belong to the current text:
+    (a) DocumentState::clear replaces `parsed_data` wholesale (assignment of a freshly constructed value) - a field-by-field
+        reset forgets a field sooner or later, and positions of an older version then show up in the diagnostics of a newer one;
+    (b) in Server::analyze the reset dominates the call of the parser, or every path from that call to a return - the error
+        returns of `?` included - passes a wholesale reset / assignment of `parsed_data`: a failed parse must not leave the
+        results of the previous text attached to the new text (hover then slices the new text with old ranges)."""
+    from .. import cfg
+    from .common import all_places
+    DS = "parol_ls::document_state::DocumentState"
+    clr = facts.body_by_path_opt(DS + "::clear")
+    if clr is None:
+        ctx.info(rule, "DocumentState::clear does not exist on this tree; only the reset discipline of Server::analyze is evaluated")
+    if clr is not None:
+        whole = []
+        partial = []
+        for bi, kind, p, line in all_places(clr):
+            if kind != "w":
+                continue
+            flds = [e for e in p[1:] if isinstance(e, list) and e[0] == "f"]
+            if flds and flds[-1][2] == "parsed_data" and flds[-1][3] == DS:
+                whole.append(line)
+            elif any(e[2] == "parsed_data" and e[3] == DS for e in flds):
+                partial.append((flds[-1][2], line))
+        for c in clr.calls():
+            # in-place resets through &mut parsed_data.<field> (clear(), truncate ..)
+            if c.args and c.args[0][0] in ("c", "m"):
+                from ..dataflow import raw_operand_place
+                rp = raw_operand_place(clr, c.args[0])
+                flds = [e for e in (rp or [])[1:] if isinstance(e, list) and e[0] == "f"]
+                if len(flds) >= 2 and any(e[2] == "parsed_data" and e[3] == DS for e in flds[:-1]):
+                    partial.append((flds[-1][2], c.line))
+        ctx.check(bool(whole) and not partial, rule, "DocumentState::clear|wholesale-reset",
+                  "clear() assigns a fresh ParolLsGrammar to parsed_data",
+                  "DocumentState::clear resets parsed_data field by field (%s)%s: a field that is not reset keeps entries of earlier "
+                  "versions of the document, and diagnostics of the current version point at positions of an older text"
+                  % (sorted({f for f, _l in partial}), "" if whole else " and never replaces it as a whole"), where(clr))
+    an = facts.body("parol_ls::server::Server::analyze")
+    parses = [c for c in an.calls() if (c.path or "").endswith("parol_ls_parser::parse")]
+    if len(parses) != 1:
+        raise AnchorMissing("Server::analyze: expected one call of the grammar parser, found %d" % len(parses))
+    pc = parses[0]
+    resets = {c.bb for c in an.calls() if c.path == DS + "::clear"}
+    for bi, kind, p, line in all_places(an):
+        flds = [e for e in p[1:] if isinstance(e, list) and e[0] == "f"]
+        if kind == "w" and flds and flds[-1][2] == "parsed_data" and flds[-1][3] == DS:
+            resets.add(bi)
+    dom = cfg.Dom(an)
+    ok = any(dom.dominates(r, pc.bb) and r != pc.bb for r in resets)
+    if not ok:
+        # every path from the parse call to a return passes a reset
+        tc = an.term(pc.bb)
+        succs = [x for x in an.succs(pc.bb)]
+        reach = cfg.reachable_from(an, succs, avoid_blocks=resets)
+        ok = bool(resets) and not (reach & set(an.return_blocks()))
+    ctx.check(ok, rule, "Server::analyze|stale-parse-results-impossible",
+              "parsed_data is reset before the parser runs (or on every path behind it)",
+              "Server::analyze can return - e.g. through the `?` of a failed parse - with the parse results of the previous text "
+              "still attached to the document whose text was replaced: hover / goto-definition then use ranges of the old text on "
+              "the new one (str::split_at beyond the end panics and takes the server down)", where(an, pc.line))
